@@ -31,7 +31,7 @@ def usedAnyIn (J : Judge) (s : OSig) (a : CallArgs) : Bool :=
   | some b => (tasks s a b).any fun t =>
       match t.2 with
       | none => false
-      | some (e, v) => J.acc e v && J.used e v
+      | some (e, v) => J.acc e v && J.used e v && !(t.1 == Pos.dflt)
 
 /-! ## Side conditions on the arguments -/
 
@@ -136,26 +136,16 @@ instance (a : CallArgs) (slot : Pos) (ms : List Ty) : Decidable (OneUnion a slot
       ms.all (fun m => !unionLike m) = true ∧ ms.all (fun m => !hasAny m) = true ∧ DistinctTys ms)
     ⟨fun ⟨a, b, c, d, e, f, g⟩ => ⟨a, b, c, d, e, f, g⟩, fun ⟨a, b, c, d, e, f, g⟩ => ⟨a, b, c, d, e, f, g⟩⟩
 
-/-! ## Exception classes (known-finding candidates)
+/-! ## Exception class (known finding)
 
-* `emptyVarPos` — an overload with a `*args` parameter binds the call with an **empty** pack. The
-  pack is `SequenceValue(tuple, [])`, whose generic argument is `AnyValue(AnySource.unreachable)`
-  (value.py:1179), so `tuple[T, ...]` accepts it "through Any": the overload is an Any-match although
-  no argument contains `Any`, the loop goes on, and a later match turns the result into
-  `Any[multiple_overload_matches]`.
 * `unionInVarPos` — a union argument is collected into the `*args` pack of some overload: the pack
   is a `SequenceValue`, never a `MultiValuedValue`, so `decompose_union` does not apply and the
-  union is not distributed over the overloads. -/
+  union is not distributed over the overloads.
 
-def emptyPack (s : OSig) (a : CallArgs) : Bool :=
-  match s.bind a with
-  | none => false
-  | some b => (tasks s a b).any fun t =>
-      match t.2 with
-      | some (_, .seq _ []) => true
-      | _ => false
-
-def D08_emptyVarPos (sigs : List OSig) (a : CallArgs) : Bool := sigs.any (emptyPack · a)
+The former class `emptyVarPos` (an empty `*args` pack `SequenceValue(tuple, [])` was accepted by
+`tuple[T, ...]` "through Any" because of its `Any[unreachable]` argument, value.py:1179) was repaired
+in /repo by 41847cf (`if param_used_any and position is not DEFAULT`); the model follows the repaired
+code, `emptyVarPos_fixed` (Props/C08.lean) is its regression theorem. -/
 
 def unionInPack (s : OSig) (a : CallArgs) : Bool :=
   match s.bind a with
@@ -166,7 +156,6 @@ def D08_unionInVarPos (sigs : List OSig) (a : CallArgs) : Bool := sigs.any (unio
 
 /-- Classes of a call, as printed by the driver. -/
 def d08Classes (sigs : List OSig) (a : CallArgs) : List String :=
-  (if D08_emptyVarPos sigs a then ["emptyVarPos"] else []) ++
   (if D08_unionInVarPos sigs a then ["unionInVarPos"] else [])
 
 end Pya.C08
